@@ -248,9 +248,10 @@ func zzC18_s3() {
 
 // zzS4: vendor-specific AVPs of an application dictionary (S6a): V flag from the vendor id, M from "must".
 type zzS4 struct {
-	ServiceSelection datatype.UTF8String       `avp:"Service-Selection"` // vendor 10415, must="M", must-not="V"
-	VisitedPLMN      datatype.OctetString      `avp:"Visited-PLMN-Id"`   // vendor 10415, must="V,M"
-	OriginHost       datatype.DiameterIdentity `avp:"Origin-Host"`       // base application, through the parent chain
+	ServiceSelection datatype.UTF8String       `avp:"Service-Selection"`  // vendor 10415, must="M", must-not="V"
+	VisitedPLMN      datatype.OctetString      `avp:"Visited-PLMN-Id"`    // vendor 10415, must="M,V"
+	OriginHost       datatype.DiameterIdentity `avp:"Origin-Host"`        // base application, through the parent chain
+	RuleBase         datatype.UTF8String       `avp:"ADC-Rule-Base-Name"` // parent application 4, vendor 10415, must="V,M" (M not listed first)
 }
 
 func zzC18_s4() {
@@ -258,6 +259,7 @@ func zzC18_s4() {
 		ServiceSelection: datatype.UTF8String(zzSymStr("ss", 2)),
 		VisitedPLMN:      datatype.OctetString(zzSymStr("plmn", 3)),
 		OriginHost:       datatype.DiameterIdentity(zzSymStr("oh", 1)),
+		RuleBase:         datatype.UTF8String(zzSymStr("rb", 2)),
 	}
 	m := NewRequest(316, 16777251, dict.Default)
 	err := m.Marshal(&src)
@@ -269,15 +271,16 @@ func zzC18_s4() {
 		zzHandAVP(m, "Service-Selection", src.ServiceSelection),
 		zzHandAVP(m, "Visited-PLMN-Id", src.VisitedPLMN),
 		zzHandAVP(m, "Origin-Host", src.OriginHost),
+		zzHandAVP(m, "ADC-Rule-Base-Name", src.RuleBase),
 	}
 	// independent of zzHandAVP: the vendor-specific ones carry V and the dictionary's vendor id
-	vAssert(want[0].VendorID == 10415 && want[1].VendorID == 10415 && want[2].VendorID == 0, "dictionary vendor ids")
-	vAssert(len(m.AVP) == 3, "one AVP per field")
-	if len(m.AVP) == 3 {
+	vAssert(want[0].VendorID == 10415 && want[1].VendorID == 10415 && want[2].VendorID == 0 && want[3].VendorID == 10415, "dictionary vendor ids")
+	vAssert(len(m.AVP) == 4, "one AVP per field")
+	if len(m.AVP) == 4 {
 		for i := range want {
 			zzSameAVP(m.AVP[i], want[i], "marshalled vendor-specific AVP")
 		}
-		vAssert(m.AVP[0].Flags == avp.Vbit|avp.Mbit && m.AVP[1].Flags == avp.Vbit|avp.Mbit && m.AVP[2].Flags == avp.Mbit, "V flag follows the vendor id, M flag follows the must attribute")
+		vAssert(m.AVP[0].Flags == avp.Vbit|avp.Mbit && m.AVP[1].Flags == avp.Vbit|avp.Mbit && m.AVP[2].Flags == avp.Mbit && m.AVP[3].Flags == avp.Vbit|avp.Mbit, "V flag follows the vendor id, M flag follows the must attribute")
 	}
 	b, serr := m.Serialize()
 	vAssert(serr == nil && int(m.Header.MessageLength) == len(b), "message length bookkeeping after Marshal")
